@@ -8,7 +8,7 @@ from sa.emit import Elem, walk_elems
 from sa.flow import show, sig, subterms
 from sa.model import AnalysisError, norm, parent, walk_no_nested
 
-from .common import alts, callers_of, commands, is_call, is_plain_iter, loop_iteration_paths, need, prov, unshipped_modules
+from .common import include_rules, alts, callers_of, commands, is_call, is_plain_iter, loop_iteration_paths, need, prov, unshipped_modules
 from .c12 import traversal_funcs
 from .xmlcommon import documents
 
@@ -193,6 +193,10 @@ def run(report, p):
             guards = [t for t, l in gsf.control_deps(cn) if t.kind == "test" and any(k in norm(t.ast) for k in ("commonpath", "startswith", "relpath", "is_relative_to", "..")) ]
             r5.check(bool(guards), sf, c, "a path named with -sf is sealed without checking that it lies inside the history root: `create ROOT -sf ../other/z.txt` records <path>../other/z.txt</path> (a path escaping the root)", construct="-sf path sealed without containment test")
 
+    # ---- rules shared with other properties (same mechanism, same rule, reported under every property it can break)
+    include_rules(report, p, 'c08', ['R8.1', 'R8.2'], 'records must land in the deepest history with a path relative to its root (routing)')
+    include_rules(report, p, 'c01', ['R1.1'], 'a record carries a correct digest only if the whole file is hashed')
+    include_rules(report, p, 'c13', ['R13.3'], 'record keys must never carry an absolute location')
     report.not_decided += ["that the record set equals the tree for concrete trees (needs C01/C04/C08/C12 and run time)", "names with unusual characters at run time (see C10 for escaping)"]
 
 
